@@ -97,7 +97,7 @@ def opLine (d : DState) : List String → Option (DState × String)
   | "vote" :: o :: hp :: claim => do
     let (c, _, _) ← parseClaim claim
     let before := d.st.executed.length
-    let (s', res) := vote hashHex d.st (← o.toNat?) c (← boolOf hp)
+    let (s', res) := vote (fun c => hashHex c.path) d.st (← o.toNat?) c (← boolOf hp)
     let kind := match res with
       | .ok => "ok" | .logicCheck => "err:logic-check" | .nonContiguous => "err:non-contiguous" | .panic => "panic"
     let exec := if s'.executed.length > before then ((hashHex c.path).take 16).toString else "-"
